@@ -16,6 +16,7 @@ symbol-mismatch error rather than answered.
 import AutomataVerif.Proofs.Product
 import AutomataVerif.Proofs.PyShape
 import AutomataVerif.Proofs.ExpandValid
+import AutomataVerif.Proofs.Rename
 
 namespace AV.Props.C04
 open AV AV.DFA
@@ -127,5 +128,41 @@ example : (match exA.binopPlain .symm exB with
 example : (match exA.binopPlain .inter exB with
            | .ok R => (R.allowPartial, R.states.length, R.trans.length)
            | .error _ => (false, 0, 0)) = (true, 4, 4) := by decide
+
+/-! ## 2. `retain_names=False`: renaming by BFS discovery index -/
+
+/-- **Renaming is harmless.**  For a valid duplicate-free DFA whose transition keys are
+states, the renumbered DFA (`get_renaming_function(count(0))` applied in discovery order)
+is valid, duplicate-free, over the same alphabet, and gives the same verdict on every word. -/
+theorem C04_renumber (d : AV.DFA σ α) (hd : d.validate = .ok ()) (pd : d.PyShape)
+    (hk : ∀ k ∈ akeys d.trans, k ∈ d.states) :
+    d.renumber.validate = .ok () ∧ d.renumber.PyShape ∧ d.renumber.syms = d.syms ∧
+      d.renumber.allowPartial = d.allowPartial ∧
+      ∀ w, d.renumber.accepts w = d.accepts w := by
+  have wf := (DFA.validate_eq_ok d).mp hd
+  have hinj := renumber_injOn d hk
+  rw [renumber_eq_rename]
+  exact ⟨rename_valid _ hd, rename_pyShape _ wf pd hinj, rfl, rfl, rename_accepts _ wf hinj⟩
+
+/-- **Boolean operations, `retain_names=False, minify=False`.**  The renumbered product is a
+valid DFA over the operands' alphabet with exactly the set-operation language. -/
+theorem C04_binop_renumbered (op : BinOp) (A B : AV.DFA σ α) (hA : A.validate = .ok ())
+    (hB : B.validate = .ok ()) (pA : A.PyShape) (hs : A.symsEq B = true) :
+    ∃ R, A.binopPlain op B = .ok R ∧ R.renumber.validate = .ok () ∧ R.renumber.PyShape ∧
+      R.renumber.syms = A.syms ∧
+      ∀ w, R.renumber.accepts w = op.fin (A.accepts w) (B.accepts w) := by
+  obtain ⟨R, hR, hv, hp, hsy, hkeys⟩ := C04_binop_valid op A B hA hB pA hs
+  obtain ⟨R', hR', hl⟩ := C04_binop_lang op A B hA hB pA hs
+  have : R' = R := by rw [hR] at hR'; cases hR'; rfl
+  subst this
+  obtain ⟨h1, h2, h3, _, h5⟩ := C04_renumber R' hv hp (fun k hk => by rw [← hkeys]; exact hk)
+  exact ⟨R', hR, h1, h2, h3.trans hsy, fun w => (h5 w).trans (hl w)⟩
+
+example : (match exA.binopPlain .union exB with
+           | .ok R => R.renumber.states
+           | .error _ => []) = [0, 1, 2, 3, 4, 5] := by decide
+example : (match exA.binopPlain .union exB with
+           | .ok R => R.renumber.validate
+           | .error e => .error e) = .ok () := by rfl
 
 end AV.Props.C04
